@@ -34,7 +34,12 @@ pub static HEADER: &str = "BEGINSLATEPACK.";
 static FOOTER: &str = ". ENDSLATEPACK.";
 const WORD_LENGTH: usize = 15;
 const WORDS_PER_LINE: usize = 200;
-const WEIGHT_RATIO: u64 = 32;
+// Bytes of armored slatepack per unit of transaction weight, at most: an output weighs 21 units
+// and takes 718 bytes in the binary slate (674 of them range proof), an input weighs 1 unit and
+// takes 34 bytes; base58 text with its word and line breaks is about 1.45 times the binary size,
+// the JSON form (base64) about 1.35 times. A ratio below that refuses slatepacks this wallet
+// itself writes for transactions that are within the weight limit.
+const WEIGHT_RATIO: u64 = 64;
 
 /// Maximum size for an armored Slatepack file
 pub fn max_size() -> u64 {
